@@ -200,7 +200,9 @@ func c02Pipeline(ctx *Ctx, r *Rng) {
 		var fault string
 		chain := late && r.Chance(1, 2)
 		pending := false
-		if late && !chain && r.Chance(1, 2) {
+		// (not in a file that holds the CHILDREN of a directive: there BaseUrl may be a proper child — thorough-tier false
+		// alarm of this generator, corrected)
+		if late && !chain && !c.nested[target] && r.Chance(1, 2) {
 			// a misplaced directive written directly BEFORE a top-level INCLUDE of the target file: it is still pending
 			// when the INCLUDE is met; the diagnostic is about the including file and must carry ITS include chain
 			ll := strings.Split(old, "\n")
@@ -227,17 +229,42 @@ func c02Pipeline(ctx *Ctx, r *Rng) {
 			// example that violates its own constraint) on a line of its own in the deepest type
 			depth := 1 + r.Intn(3)
 			var decls []string
+			// the usages may close a cycle (the last type refers back to the first one, optionally); in a cycle the
+			// faulty type is any type of it — also the one that is declared, or compiled, first
+			cyclic := r.Chance(1, 2)
+			faulty := depth
+			if cyclic {
+				faulty = r.Intn(depth + 1)
+				ctx.Cov.Hit("fault inside a type of a reference cycle")
+				if faulty == 0 {
+					ctx.Cov.Hit("fault inside the first type of a reference cycle")
+				}
+			}
 			for d := 0; d <= depth; d++ {
+				next := ""
 				if d < depth {
-					decls = append(decls, fmt.Sprintf("TYPE @k%d_%d\n{\"next\": @k%d_%d}\n", i, d, i, d+1))
+					next = fmt.Sprintf("\"next\": @k%d_%d", i, d+1)
+				} else if cyclic {
+					next = fmt.Sprintf("\"next\": @k%d_0 // {optional: true}", i)
+				}
+				if d != faulty {
+					decls = append(decls, fmt.Sprintf("TYPE @k%d_%d\n{\n  %s\n}\n", i, d, next))
 				} else {
-					bad := []string{"\"id\": 1 // {type2: \"any\"}", "\"id\": 1 // {min: 5}"}[r.Intn(2)]
-					decls = append(decls, fmt.Sprintf("TYPE @k%d_%d\n{\n  \"someLongPropertyName\": \"some long value, to be well past the other bodies\",\n  %s\n}\n", i, d, bad))
+					bad := []string{"\"id\": 1 // {type2: \"any\"}", "\"id\": 1 // {min: 5}", fmt.Sprintf("\"id\": @undeclared%d", i)}[r.Intn(3)]
+					if next != "" {
+						if strings.Contains(bad, " //") {
+							bad = strings.Replace(bad, " //", ", //", 1)
+						} else {
+							bad += ","
+						}
+						next = "\n  " + next
+					}
+					decls = append(decls, fmt.Sprintf("TYPE @k%d_%d\n{\n  \"someLongPropertyName\": \"some long value, to be well past the other bodies\",\n  %s%s\n}\n", i, d, bad, next))
 				}
 			}
 			perm := r.Perm(len(decls))
 			for _, k := range perm {
-				if k == depth {
+				if k == faulty {
 					faultLine += strings.Count(fault, "\n") + 3 // the line of the faulty property
 				}
 				fault += decls[k]
